@@ -211,7 +211,7 @@ def run_solve_paths(mutate=None):
         dev = type("Dev", (), {"mesh": "MESH", "to_hdf5": lambda self_, g: None})()
         s.device = dev
         if outcome == "seed_mismatch":
-            s.seed_solution = type("Seed", (), {"device": "OTHER"})()
+            s.seed_solution = type("Seed", (), {"device": "OTHER", "tdgl_data": type("TD", (), dict(psi=0, mu=0, supercurrent=0, normal_current=0, induced_vector_potential=0))()})()
         else:
             s.seed_solution = None
         s.num_edges, s.probe_points = 4, None
@@ -231,7 +231,7 @@ def run_solve_paths(mutate=None):
         check(f"C15.solve_paths.exit_runs_exactly_once_after_enter[{outcome}]",
               z3.BoolVal(names.count("exit") == names.count("enter") and (not entered or names.index("exit") > names.index("enter"))))
         if outcome in ("seed_mismatch", "validate_raises"):
-            check(f"C19.rejected_before_anything_is_opened[{outcome}]", z3.BoolVal(exc is not None and "DataHandler" not in names))
+            check(f"C19.rejected_before_anything_is_opened[{outcome}]", z3.BoolVal(isinstance(exc, ValueError) and "DataHandler" not in names))
         if outcome in ("runner_raises", "solution_ctor_raises", "save_mesh_raises"):
             check(f"C15.solve_paths.error_propagates_after_cleanup[{outcome}]", z3.BoolVal(exc is not None and names[-1] == "exit" or (exc is not None and "exit" in names)))
         if outcome == "completed":
